@@ -1,29 +1,83 @@
-"""T10: lsp/formatting.rs -> Gen/EditsConsts.v
-  * how RangeKeeper::push advances the column (bytes vs UTF-16 code units) and what it treats as a line break
-  * the order and shape of the match arms of get_text_edits
+"""T10: mos/src/lsp/formatting.rs -> Gen/EditsConsts.v
+
+Translated (constants the theorems depend on):
+  * column_width          how RangeKeeper::push advances the column: `str.encode_utf16().count()` (UTF-16 code units),
+                          `str.len()` (UTF-8 bytes) or `str.chars().count()` (scalars)
+  * newline_char          the char RangeKeeper::push searches for
+  * cr_char, whole_document_on_cr
+                          whether get_text_edits starts with the `contains('\\r')` whole-document branch, and its char
+Checked for shape (ShapeError = broken tie): the loop of push, the body of to_range, order / guards / bodies of the five
+match arms of get_text_edits, the body of the whole-document branch, do_formatting (guard on ctx.error, default
+formatting options, get_text_edits(old_text, &new_text)) and both request handlers calling do_formatting.
 """
 import re
 from tcommon import read, strip_comments, write_if_changed, between, ShapeError
 
 
+def squash(s):
+    return re.sub(r"\s+", " ", s).strip()
+
+
+def char_code(lit, what):
+    """Rust char / one-char string literal body -> code point"""
+    esc = {"\\n": 10, "\\r": 13, "\\t": 9, "\\0": 0, "\\\\": 92, "\\'": 39}
+    if lit in esc:
+        return esc[lit]
+    if len(lit) == 1:
+        return ord(lit)
+    m = re.fullmatch(r"\\u\{([0-9a-fA-F]+)\}", lit)
+    if m:
+        return int(m.group(1), 16)
+    raise ShapeError("%s: unknown char literal %r" % (what, lit))
+
+
+WIDTHS = {"str.len()": "width_utf8", "str.encode_utf16().count()": "width_utf16", "str.chars().count()": "width_chars"}
+
+CR_BRANCH = (r"if old_text\.contains\('((?:\\.|[^'\\])+)'\) \{ if old_text == new_text \{ return vec!\[\]; \} "
+             r"let lf_only = old_text\.replace\(\"\\r\\n\", \"\\n\"\)\.replace\('\\r', \"\\n\"\); "
+             r"return vec!\[TextEdit \{ range: RangeKeeper::new\(\)\.to_range\(&lf_only\), new_text: new_text\.to_string\(\), \}\]; \} ")
+
+
 def translate():
     src = strip_comments(read("mos/src/lsp/formatting.rs"))
-    push = re.sub(r"\s+", " ", between(src, r"fn push\(&mut self, mut str: &str\) \{", r"fn to_range", "RangeKeeper::push"))
-    m = re.search(r"loop \{ match str\.find\('\\n'\) \{ Some\(newline_idx\) => \{ self\.line \+= 1; self\.character = 0; "
-                  r"str = str\.split_at\(newline_idx \+ 1\)\.1; \} None => \{ self\.character \+= (.*?) as u32; break; \} \} \}", push)
+    # ---- RangeKeeper::new / push / to_range
+    new = squash(between(src, r"fn new\(\) -> Self \{", r"\n    \}", "RangeKeeper::new"))
+    if new != "Self { line: 0, character: 0, }":
+        raise ShapeError("RangeKeeper::new has unrecognised shape: %s" % new)
+    push = squash(between(src, r"fn push\(&mut self, mut str: &str\) \{", r"fn to_range", "RangeKeeper::push"))
+    m = re.match(r"loop \{ match str\.find\('((?:\\.|[^'\\])+)'\) \{ Some\(newline_idx\) => \{ self\.line \+= 1; self\.character = 0; "
+                 r"str = str\.split_at\(newline_idx \+ 1\)\.1; \} None => \{ self\.character \+= (.*?) as u32; break; \} \} \} \}$", push)
     if not m:
         raise ShapeError("RangeKeeper::push has unrecognised shape: %s" % push[:300])
-    w = m.group(1).strip()
-    if w == "str.len()":
-        width = "width_utf8"
-    elif w == "str.encode_utf16().count()":
-        width = "width_utf16"
-    else:
+    nl = char_code(m.group(1), "RangeKeeper::push")
+    w = m.group(2).strip()
+    if w not in WIDTHS:
         raise ShapeError("RangeKeeper::push: unknown column width expression %r" % w)
-    tr = re.sub(r"\s+", " ", between(src, r"fn to_range\(&self, str: &str\) -> lsp_types::Range \{", r"\n    \}", "to_range"))
-    if tr.strip() != "let mut end_rk = self.clone(); end_rk.push(str); rng(self.line, self.character, end_rk.line, end_rk.character)":
+    width = WIDTHS[w]
+    tr = squash(between(src, r"fn to_range\(&self, str: &str\) -> lsp_types::Range \{", r"\n    \}", "to_range"))
+    if tr != "let mut end_rk = self.clone(); end_rk.push(str); rng(self.line, self.character, end_rk.line, end_rk.character)":
         raise ShapeError("RangeKeeper::to_range has unrecognised shape: %s" % tr)
-    body = re.sub(r"\s+", " ", between(src, r"fn get_text_edits\(old_text: &str, new_text: &str\) -> Vec<TextEdit> \{", r"\nfn rng", "get_text_edits"))
+    rng = squash(between(src, r"fn rng\(start_line: u32, start_column: u32, end_line: u32, end_column: u32\) -> lsp_types::Range \{",
+                         r"\n\}", "rng"))
+    if rng != ("lsp_types::Range { start: lsp_types::Position { line: start_line, character: start_column, }, "
+               "end: lsp_types::Position { line: end_line, character: end_column, }, }"):
+        raise ShapeError("rng has unrecognised shape: %s" % rng)
+    # ---- get_text_edits
+    body = squash(between(src, r"fn get_text_edits\(old_text: &str, new_text: &str\) -> Vec<TextEdit> \{", r"\nfn rng", "get_text_edits"))
+    cr = 13
+    m = re.match(CR_BRANCH, body)
+    if m:
+        whole = True
+        cr = char_code(m.group(1), "get_text_edits")
+        body = body[m.end():]
+    else:
+        whole = False
+    head = "let mut rk = RangeKeeper::new(); let edits = diff(old_text, new_text); let mut idx = 0; let mut result = vec![]; " \
+           "while idx < edits.len() { match (edits[idx], edits.get(idx + 1), edits.get(idx + 2)) {"
+    if not body.startswith(head):
+        raise ShapeError("get_text_edits: unrecognised beginning: %s" % body[:200])
+    if not body.endswith("} } result }"):
+        raise ShapeError("get_text_edits: unrecognised end: %s" % body[-80:])
     arms = re.findall(r"\((Chunk::\w+\(\w+\)), (Some\(Chunk::\w+\(\w+\)\)|_), (Some\(Chunk::\w+\(\w+\)\)|_)\)( if &del == ins)? =>", body)
     want = [("Chunk::Delete(del)", "Some(Chunk::Equal(eq))", "Some(Chunk::Insert(ins))", " if &del == ins"),
             ("Chunk::Delete(del)", "Some(Chunk::Insert(ins))", "_", ""),
@@ -31,23 +85,38 @@ def translate():
     if arms != want:
         raise ShapeError("get_text_edits: match arms changed: %s" % arms)
     checks = [
-        r'let del = format!\("\{\}\{\}", del, eq\); let ins = format!\("\{\}\{\}", eq, ins\); let cur_range = rk\.to_range\(&del\); rk\.push\(&del\); '
-        r'result\.push\(TextEdit \{ range: cur_range, new_text: ins\.to_string\(\), \}\); idx \+= 3;',
-        r'let cur_range = rk\.to_range\(del\); rk\.push\(del\); result\.push\(TextEdit \{ range: cur_range, new_text: ins\.to_string\(\), \}\); idx \+= 2;',
+        r'=> \{ let del = format!\("\{\}\{\}", del, eq\); let ins = format!\("\{\}\{\}", eq, ins\); let cur_range = rk\.to_range\(&del\); rk\.push\(&del\); '
+        r'result\.push\(TextEdit \{ range: cur_range, new_text: ins\.to_string\(\), \}\); idx \+= 3; \}',
+        r'=> \{ let cur_range = rk\.to_range\(del\); rk\.push\(del\); result\.push\(TextEdit \{ range: cur_range, new_text: ins\.to_string\(\), \}\); idx \+= 2; \}',
         r'\(Chunk::Equal\(str\), _, _\) => \{ rk\.push\(str\); idx \+= 1; \}',
-        r'let cur_range = rk\.to_range\(""\); result\.push\(TextEdit \{ range: cur_range, new_text: str\.into\(\), \}\); idx \+= 1;',
-        r'let cur_range = rk\.to_range\(str\); rk\.push\(str\); result\.push\(TextEdit \{ range: cur_range, new_text: ""\.to_string\(\), \}\); idx \+= 1;',
+        r'\(Chunk::Insert\(str\), _, _\) => \{ let cur_range = rk\.to_range\(""\); result\.push\(TextEdit \{ range: cur_range, new_text: str\.into\(\), \}\); idx \+= 1; \}',
+        r'\(Chunk::Delete\(str\), _, _\) => \{ let cur_range = rk\.to_range\(str\); rk\.push\(str\); result\.push\(TextEdit \{ range: cur_range, new_text: ""\.to_string\(\), \}\); idx \+= 1; \}',
     ]
     for c in checks:
         if not re.search(c, body):
-            raise ShapeError("get_text_edits: an arm body changed (expected /%s/)" % c[:60])
-    if "let edits = diff(old_text, new_text);" not in body:
-        raise ShapeError("get_text_edits: diff call changed")
+            raise ShapeError("get_text_edits: an arm body changed (expected /%s/)" % c[:70])
+    # ---- do_formatting and the handlers
+    df = squash(between(src, r"fn do_formatting\(ctx: &mut LspContext, uri: &Url\) -> Option<Vec<TextEdit>> \{", r"\n\}", "do_formatting"))
+    want_df = ("let path = uri.to_file_path().unwrap(); if ctx.error.is_empty() { ctx.codegen().map(|codegen| { "
+               "let codegen = codegen.lock().unwrap(); let tree = codegen.analysis().tree(); "
+               "if let Some(old_file) = tree.try_get_file(&path) { let old_text = old_file.file.source(); "
+               "let new_text = format(path, tree.clone(), FormattingOptions::default()); get_text_edits(old_text, &new_text) } "
+               "else { vec![] } }) } else { None }")
+    if df != want_df:
+        raise ShapeError("do_formatting has unrecognised shape: %s" % df)
+    h = squash(between(src, r"impl RequestHandler<lsp_types::request::Formatting> for FormattingRequestHandler \{", r"\nfn do_formatting", "handlers"))
+    if "Ok(do_formatting(ctx, &params.text_document.uri))" not in h or \
+            "Ok(do_formatting( ctx, &params.text_document_position.text_document.uri, ))" not in h or h.count("do_formatting") != 2:
+        raise ShapeError("request handlers have unrecognised shape: %s" % h[:300])
     out = ["(* GENERATED by translate/t_edits.py from mos/src/lsp/formatting.rs. DO NOT EDIT. *)",
            "From Coq Require Import NArith.", "From Mos Require Import model.Utf.",
-           "Definition column_width : N -> nat := %s." % width]
+           "Definition column_width : N -> nat := %s." % width,
+           "Definition newline_char : N := %d%%N." % nl,
+           "Definition cr_char : N := %d%%N." % cr,
+           "Definition whole_document_on_cr : bool := %s." % ("true" if whole else "false")]
     fp = write_if_changed("EditsConsts.v", "\n".join(out) + "\n")
-    return {"file": "Gen/EditsConsts.v", "fingerprint": fp, "column_width": width}
+    return {"file": "Gen/EditsConsts.v", "fingerprint": fp, "column_width": width, "newline_char": nl, "cr_char": cr,
+            "whole_document_on_cr": whole}
 
 
 if __name__ == "__main__":
